@@ -2980,6 +2980,203 @@ theorem indexLoop_spec (cfg : Cfg) (t0 : Table) (N : Nat) (last : Nat) :
     exact e
 
 
+theorem getD_range (m i : Nat) (h : i < m) : (List.range m).getD i 0 = i := by
+  simp [List.getD, h]
+
+/-! ## stability of `index` -/
+
+section Stable
+variable {α : Type} (lt : α → α → Bool) (R : α → α → Prop)
+
+/-- sorted, and ties in the order `R` they had before -/
+def TieOrd (a b : α) : Prop := lt b a = false ∧ (lt a b = false → R a b)
+
+theorem insertBy_stable (h : IsSWO lt) (x : α) : ∀ l : List α, (∀ y ∈ l, R x y) → l.Pairwise (TieOrd lt R) →
+    (insertBy lt x l).Pairwise (TieOrd lt R)
+  | [], _, _ => by simp [insertBy]
+  | y :: ys, hx, hp => by
+    rw [List.pairwise_cons] at hp
+    simp only [insertBy]
+    split
+    · rename_i hyx
+      rw [List.pairwise_cons]
+      refine ⟨?_, insertBy_stable h x ys (fun z hz => hx z (by simp [hz])) hp.2⟩
+      intro z hz
+      have hz' := (insertBy_perm lt x ys).mem_iff.mp hz
+      rw [List.mem_cons] at hz'
+      rcases hz' with rfl | hz'
+      · exact ⟨h.asymm _ _ hyx, fun hc => by rw [hyx] at hc; exact absurd hc (by simp)⟩
+      · exact hp.1 z hz'
+    · rename_i hyx
+      simp only [Bool.not_eq_true] at hyx
+      rw [List.pairwise_cons]
+      refine ⟨?_, List.pairwise_cons.mpr hp⟩
+      intro z hz
+      simp at hz
+      rcases hz with rfl | hz
+      · exact ⟨hyx, fun _ => hx _ (by simp)⟩
+      · exact ⟨h.le_trans _ _ _ hyx (hp.1 z hz).1, fun _ => hx z (by simp [hz])⟩
+
+theorem sortBy_stable (h : IsSWO lt) : ∀ l : List α, l.Pairwise R → (sortBy lt l).Pairwise (TieOrd lt R)
+  | [], _ => List.Pairwise.nil
+  | x :: xs, hp => by
+    rw [List.pairwise_cons] at hp
+    exact insertBy_stable lt R h x _ (fun y hy => hp.1 y ((sortBy_perm lt xs).mem_iff.mp hy)) (sortBy_stable h xs hp.2)
+
+end Stable
+
+theorem ltBy_swo (kf : Nat → Cell) : IsSWO (ltBy kf) :=
+  ⟨fun _ _ hh => Key.lt_asymm _ _ hh, fun _ _ _ h1 h2 => Key.le_trans _ _ _ h1 h2⟩
+
+/-- inside every segment the original row numbers are increasing -/
+def StableIn (perm : List Nat) (lohis : List (Nat × Nat)) : Prop :=
+  ∀ p ∈ lohis, ∀ i j, p.1 ≤ i → i < j → j < p.2 → perm.getD i 0 < perm.getD j 0
+
+/-- after sorting the blocks: rows of one segment that tie on the sort key are still in their original order -/
+theorem stage_sort_stable (kf : Nat → Cell) (perm : List Nat) (lohis : List (Nat × Nat)) (N : Nat)
+    (hs : Segs lohis 0 N) (hN : N = perm.length) (hst : StableIn perm lohis) :
+    ∀ p ∈ lohis, ∀ i j, p.1 ≤ i → i < j → j < p.2 →
+      ltBy kf ((sortBlocks kf perm lohis).getD i 0) ((sortBlocks kf perm lohis).getD j 0) = false →
+      (sortBlocks kf perm lohis).getD i 0 < (sortBlocks kf perm lohis).getD j 0 := by
+  intro p hp i j a b c htie
+  obtain ⟨l1, _, l3⟩ := sortBlocks_slices kf perm lohis N hs hN
+  have hb := hs.bounds p hp
+  -- the slice of perm is increasing
+  have hinc : (slice perm p.1 p.2).Pairwise (· < ·) := by
+    rw [List.pairwise_iff_getElem]
+    intro u w hu hw huw
+    have hl := slice_length perm p.1 p.2 hb.2.1 (by omega)
+    rw [hl] at hu hw
+    have := hst p hp (p.1 + u) (p.1 + w) (by omega) (by omega) (by omega)
+    rw [← getD_slice perm p.1 p.2 (p.1 + u) (by omega) (by omega) (by omega),
+      ← getD_slice perm p.1 p.2 (p.1 + w) (by omega) (by omega) (by omega)] at this
+    have e1 : p.1 + u - p.1 = u := by omega
+    have e2 : p.1 + w - p.1 = w := by omega
+    rw [e1, e2] at this
+    simpa [List.getD, List.getElem?_eq_getElem (show u < (slice perm p.1 p.2).length by omega),
+      List.getElem?_eq_getElem (show w < (slice perm p.1 p.2).length by omega)] using this
+  have hsorted := sortBy_stable (ltBy kf) (· < ·) (ltBy_swo kf) _ hinc
+  rw [← l3 p hp, List.pairwise_iff_getElem] at hsorted
+  have hl' : (slice (sortBlocks kf perm lohis) p.1 p.2).length = p.2 - p.1 :=
+    slice_length _ _ _ hb.2.1 (by rw [l1]; exact hb.2.2)
+  have hi0 : i - p.1 < (slice (sortBlocks kf perm lohis) p.1 p.2).length := by omega
+  have hj0 : j - p.1 < (slice (sortBlocks kf perm lohis) p.1 p.2).length := by omega
+  have := hsorted (i - p.1) (j - p.1) hi0 hj0 (by omega)
+  have e1 := getD_slice (sortBlocks kf perm lohis) p.1 p.2 i a (by omega) (by rw [l1]; exact hb.2.2)
+  have e2 := getD_slice (sortBlocks kf perm lohis) p.1 p.2 j (by omega) c (by rw [l1]; exact hb.2.2)
+  rw [← e1, ← e2] at htie ⊢
+  simp only [List.getD, List.getElem?_eq_getElem hi0, List.getElem?_eq_getElem hj0, Option.getD_some] at htie ⊢
+  exact this.2 htie
+
+
+/-- rows that tie on all index columns are in their original order -/
+def TieStable (K : Nat → Nat → Key) (N : Nat) (cols : List Nat) (perm : List Nat) : Prop :=
+  ∀ i j, i < j → j < N → lexLtK K cols (perm.getD i 0) (perm.getD j 0) = false → perm.getD i 0 < perm.getD j 0
+
+theorem final_stable (K : Nat → Nat → Key) (N : Nat) (done : List Nat) (perm : List Nat) (lohis : List (Nat × Nat))
+    (kf : Nat → Cell) (col : Nat) (hkf : ∀ x, (kf x).key = K col x)
+    (hs : StageInv K N done perm lohis)
+    (htie : ∀ p ∈ lohis, ∀ i j, p.1 ≤ i → i < j → j < p.2 →
+      ltBy kf (perm.getD i 0) (perm.getD j 0) = false → perm.getD i 0 < perm.getD j 0) :
+    TieStable K N (done ++ [col]) perm := by
+  intro i j hij hj hlex
+  obtain ⟨p, hp, p1, p2⟩ := hs.segs.cover i (Nat.zero_le _) (by omega)
+  by_cases hjp : j < p.2
+  · have hag : ∀ d ∈ done, K d (perm.getD i 0) = K d (perm.getD j 0) :=
+      fun d hd => hs.agree d hd p hp i j p1 p2 (by omega) hjp
+    rw [lexLtK_agree K done _ _ hag [col]] at hlex
+    apply htie p hp i j p1 hij hjp
+    simp only [ltBy, hkf]
+    simp only [lexLtK] at hlex
+    by_contra hcon
+    simp only [Bool.not_eq_false] at hcon
+    simp only [hcon, if_true] at hlex
+    exact absurd hlex (by simp)
+  · have := hs.strict p hp i j p2 (by omega) hj
+    rw [lexLtK_append_of_lt K done [col] _ _ this] at hlex
+    exact absurd hlex (by simp)
+
+theorem indexLoop_stable (cfg : Cfg) (t0 : Table) (N : Nat) (last : Nat) :
+    ∀ (cols : List Nat) (done : List Nat) (data : List (Nat × List Cell)) (lohis : List (Nat × Nat)) (perm : List Nat),
+    cols ≠ [] → cols.getLast? = some last → (done ++ cols).Nodup → (∀ d ∈ cols, IdxColOK t0 N d) →
+    StageInv (K0 t0) N done perm lohis → DataInv t0 N done data perm → StableIn perm lohis →
+    ∀ data' perm', indexLoop cfg last cols data lohis perm = .ok (data', perm') → TieStable (K0 t0) N (done ++ cols) perm'
+  | [], _, _, _, _, h, _, _, _, _, _, _, _, _, _ => absurd rfl h
+  | [col], done, data, lohis, perm, _, hlast, hnd, hok, hs, hd, hst, data', perm', hrun => by
+    have hl : last = col := by simpa using hlast.symm
+    subst hl
+    have hcol : last ∉ done := by
+      intro h
+      have := List.nodup_append.mp hnd
+      exact this.2.2 last h last (by simp) rfl
+    obtain ⟨b, hb, hbase, hsort, hd'⟩ := stage_data t0 N done data lohis perm last hcol (hok last (by simp)) hs hd
+    obtain ⟨hs', _⟩ := stage_sort (K0 t0) N done perm lohis hs (cellAt b)
+    simp only [indexLoop, hb, hsort, ne_eq, not_true_eq_false, if_false] at hrun
+    have hp : perm' = sortBlocks (cellAt b) perm lohis := by
+      have := Except.ok.inj hrun
+      exact (Prod.mk.inj this).2.symm
+    subst hp
+    exact final_stable (K0 t0) N done _ lohis (cellAt b) last (fun x => by simp [K0, hbase]) hs'
+      (stage_sort_stable (cellAt b) perm lohis N hs.segs hs.len.symm hst)
+  | col :: c2 :: rest, done, data, lohis, perm, _, hlast, hnd, hok, hs, hd, hst, data', perm', hrun => by
+    have hnd' := List.nodup_append.mp hnd
+    have hcol : col ∉ done := fun h => hnd'.2.2 col h col (by simp) rfl
+    have hne : col ≠ last := by
+      intro e
+      have hmem : last ∈ c2 :: rest := by
+        have : (c2 :: rest).getLast? = some last := by simpa [List.getLast?_cons_cons] using hlast
+        exact List.mem_of_getLast? this
+      have := (List.nodup_cons.mp hnd'.2.1).1
+      exact this (e ▸ hmem)
+    obtain ⟨b, hb, hbase, hsort, hd'⟩ := stage_data t0 N done data lohis perm col hcol (hok col (by simp)) hs hd
+    obtain ⟨hs', hsorted⟩ := stage_sort (K0 t0) N done perm lohis hs (cellAt b)
+    have hokc := hok col (by simp)
+    have hlen' := hs'.len
+    have hcellkey : ∀ i, i < N → (cellAt ((sortBlocks (cellAt b) perm lohis).map (cellAt b)) i).key
+        = K0 t0 col ((sortBlocks (cellAt b) perm lohis).getD i 0) := by
+      intro i hi
+      rw [cellAt_map_getD (cellAt b) _ i (by omega)]
+      simp [K0, hbase]
+    obtain ⟨nxt, hnxt, hsegs, hruns⟩ := subLohisAll_spec cfg _ _ (seq_shows_all ((sortBlocks (cellAt b) perm lohis).map (cellAt b)))
+      lohis 0 N hs.segs (by simp [hlen']) (by
+        intro p hp
+        have hb2 := hs.segs.bounds p hp
+        refine ⟨?_, ?_, ?_⟩
+        · intro i j a c e
+          rw [hcellkey i (by omega), hcellkey j (by omega)]
+          have := hsorted p hp i j a c e
+          simpa [ltBy, K0, hbase] using this
+        · intro i j a c e f
+          rw [hcellkey i (by omega), hcellkey j (by omega)]
+          exact hokc.cmp _ _ (perm_getD_lt hs'.isPerm i (by omega)) (perm_getD_lt hs'.isPerm j (by omega))
+        · intro i a c
+          rw [hcellkey i (by omega)]
+          exact hokc.nn _ (perm_getD_lt hs'.isPerm i (by omega)))
+    have hs'' := stage_refine (K0 t0) N done _ lohis hs' col (cellAt b) (fun x => by simp [K0, hbase]) nxt hsegs hruns
+    -- the new segments are runs of one key inside an old segment: ties keep their order
+    have hst' : StableIn (sortBlocks (cellAt b) perm lohis) nxt := by
+      intro q hq i j a c e
+      obtain ⟨p, hp, hpq, hrun⟩ := hruns q hq
+      have hb2 := hs.segs.bounds p hp
+      have hle := hrun.le
+      apply stage_sort_stable (cellAt b) perm lohis N hs.segs hs.len.symm hst p hp i j (by omega) c (by omega)
+      have k1 := hrun.same i a (by omega)
+      have k2 := hrun.same j (by omega) e
+      rw [hcellkey i (by omega)] at k1
+      rw [hcellkey j (by omega)] at k2
+      have : K0 t0 col ((sortBlocks (cellAt b) perm lohis).getD i 0) = K0 t0 col ((sortBlocks (cellAt b) perm lohis).getD j 0) := by
+        rw [k1, k2]
+      simp only [ltBy]
+      have e1 : ∀ x, (cellAt b x).key = K0 t0 col x := fun x => by simp [K0, hbase]
+      rw [e1, e1, this, Key.lt_irrefl]
+    rw [indexLoop] at hrun
+    simp only [hb, hsort, ne_eq, hne, not_false_eq_true, if_true, hnxt] at hrun
+    have := indexLoop_stable cfg t0 N last (c2 :: rest) (done ++ [col]) _ nxt _
+      (by simp) (by simpa [List.getLast?_cons_cons] using hlast) (by simpa [List.append_assoc] using hnd)
+      (fun d hdm => hok d (by simp at hdm ⊢; tauto)) hs'' hd' hst' data' perm' hrun
+    simpa [List.append_assoc] using this
+
+
 /-! ## `Table.index` -/
 
 theorem lookupCol_permuteOthers (indx2 perm : List Nat) (data : List (Nat × List Cell)) (c : Nat) :
@@ -3018,7 +3215,7 @@ theorem index_data_spec (cfg : Cfg) (t : Table) (N : Nat) (hok : t.OK N) (hsel :
       (∀ c b, lookupCol t.data c = .ok b → ∃ b', lookupCol t'.data c = .ok b' ∧ b'.length = N ∧
         (∀ i, i < N → (cellAt b' i).key = (cellAt b (perm.getD i 0)).key) ∧
         (c ∉ effIndex cfg t indx → b' = perm.map (cellAt b))) ∧
-      LexSortedK (K0 t) N (effIndex cfg t indx) perm := by
+      LexSortedK (K0 t) N (effIndex cfg t indx) perm ∧ TieStable (K0 t) N (effIndex cfg t indx) perm := by
   have hlen : t.len = .ok N := by
     have := hok.len_eq hdata
     simpa [Table.m, hsel, Sel.idx] using this
@@ -3027,7 +3224,7 @@ theorem index_data_spec (cfg : Cfg) (t : Table) (N : Nat) (hok : t.OK N) (hsel :
   generalize hix : effIndex cfg t indx = indx2 at hnd hdiff hcols ⊢
   -- the loop (or nothing when no name is a column)
   have hloop : ∃ data perm, indexRun cfg indx2 t.data N = .ok (data, perm) ∧ perm.Perm (List.range N) ∧
-      DataInv t N indx2 data perm ∧ LexSortedK (K0 t) N indx2 perm := by
+      DataInv t N indx2 data perm ∧ LexSortedK (K0 t) N indx2 perm ∧ TieStable (K0 t) N indx2 perm := by
     have hs0 : StageInv (K0 t) N [] (List.range N) [(0, N)] :=
       ⟨List.Perm.refl _, Segs.cons (Nat.zero_le _) (Segs.nil N), by simp, by
         intro p hp i j a b c
@@ -3037,15 +3234,23 @@ theorem index_data_spec (cfg : Cfg) (t : Table) (N : Nat) (hok : t.OK N) (hsel :
     | none =>
       have : indx2 = [] := by simpa using hl
       subst this
-      exact ⟨t.data, List.range N, by simp [indexRun], List.Perm.refl _, hd0, fun i j _ _ => rfl⟩
+      exact ⟨t.data, List.range N, by simp [indexRun], List.Perm.refl _, hd0, fun i j _ _ => rfl, fun i j hij hj _ => by
+        rw [getD_range N i (by omega), getD_range N j hj]; exact hij⟩
     | some last =>
       have hne2 : indx2 ≠ [] := by rintro rfl; simp at hl
       obtain ⟨data, perm, e, hp, hdd, hss⟩ := indexLoop_spec cfg t N last indx2 [] t.data [(0, N)] (List.range N) hne2 hl
         (by simpa using hnd) hcols hs0 hd0
-      exact ⟨data, perm, by simp only [indexRun, hl]; exact e, hp, by simpa using hdd, by simpa using hss⟩
-  obtain ⟨data, perm, eloop, hperm, hdi, hsorted⟩ := hloop
+      have hst0 : StableIn (List.range N) [(0, N)] := by
+        intro p hp i j a b c
+        simp at hp; subst hp
+        simp only at c
+        rw [getD_range N i (by omega), getD_range N j c]; exact b
+      have htie := indexLoop_stable cfg t N last indx2 [] t.data [(0, N)] (List.range N) hne2 hl
+        (by simpa using hnd) hcols hs0 hd0 hst0 data perm e
+      exact ⟨data, perm, by simp only [indexRun, hl]; exact e, hp, by simpa using hdd, by simpa using hss, by simpa using htie⟩
+  obtain ⟨data, perm, eloop, hperm, hdi, hsorted, htieS⟩ := hloop
   have hpl : perm.length = N := by rw [hperm.length_eq]; simp
-  refine ⟨{ t with data := permuteOthers indx2 perm data, indexes := indx2 }, perm, ?_, hperm, rfl, rfl, hsel, ?_, ?_, hsorted⟩
+  refine ⟨{ t with data := permuteOthers indx2 perm data, indexes := indx2 }, perm, ?_, hperm, rfl, rfl, hsel, ?_, ?_, hsorted, htieS⟩
   · simp only [Table.index, h1, h2, hix, hdiff, hlen, Bool.false_eq_true, if_false]
     rw [eloop]
   · refine ⟨?_, ?_, by rw [hsel]; exact hsel ▸ hok.sel⟩
@@ -3102,8 +3307,112 @@ theorem lexLt_rows (t' : Table) (K : Nat → Nat → Key) (perm : List Nat) (i j
     rw [show List.map (fun d => List.idxOf d t'.columns) ds = idxPositions t'.columns ds from rfl,
       lexLt_rows t' K perm i j hK ds (fun d' hd' => h d' (by simp [hd']))]
 
+/-! ## `index` = the stable lexicographic sort -/
+
+theorem lexLtK_le_trans (K : Nat → Nat → Key) : ∀ (ds : List Nat) (a b c : Nat),
+    lexLtK K ds b a = false → lexLtK K ds c b = false → lexLtK K ds c a = false
+  | [], _, _, _, _, _ => rfl
+  | d :: ds, a, b, c, h1, h2 => by
+    simp only [lexLtK] at h1 h2 ⊢
+    -- b ≤ a is excluded … read off the three-way comparisons
+    have hba : (K d b).lt (K d a) = false := by
+      by_contra hc; simp only [Bool.not_eq_false] at hc; simp [hc] at h1
+    have hcb : (K d c).lt (K d b) = false := by
+      by_contra hc; simp only [Bool.not_eq_false] at hc; simp [hc] at h2
+    have hca : (K d c).lt (K d a) = false := Key.le_trans _ _ _ hba hcb
+    simp only [hca, Bool.false_eq_true, if_false]
+    by_cases hac : (K d a).lt (K d c) = true
+    · simp [hac]
+    · simp only [hac, if_false]
+      simp only [Bool.not_eq_true] at hac
+      have eac : K d a = K d c := Key.lt_connected _ _ hac hca
+      -- a = c in this column, and a ≤ b ≤ c, so all three agree
+      have hab : (K d a).lt (K d b) = false := by
+        rw [eac]; exact hcb
+      have hbc : (K d b).lt (K d c) = false := by
+        rw [← eac]; exact hba
+      simp only [hba, hab, Bool.false_eq_true, if_false] at h1
+      simp only [hcb, hbc, Bool.false_eq_true, if_false] at h2
+      exact lexLtK_le_trans K ds a b c h1 h2
+
+theorem lexLtK_swo (K : Nat → Nat → Key) (ds : List Nat) : IsSWO (lexLtK K ds) :=
+  ⟨fun a b h => lexLtK_asymm K ds a b h, fun a b c h1 h2 => lexLtK_le_trans K ds a b c h1 h2⟩
+
+/-- a stable sorted arrangement of distinct row numbers is unique -/
+theorem stable_sort_unique (lt : Nat → Nat → Bool) (l1 l2 : List Nat) (hp : l1.Perm l2)
+    (h1 : l1.Pairwise (TieOrd lt (· < ·))) (h2 : l2.Pairwise (TieOrd lt (· < ·))) : l1 = l2 := by
+  apply hp.eq_of_pairwise _ h1 h2
+  intro a b _ _ hab hba
+  have := hab.2 hba.1
+  have := hba.2 hab.1
+  omega
+
+theorem perm_eq_sortBy (K : Nat → Nat → Key) (N : Nat) (cols : List Nat) (perm : List Nat)
+    (hp : perm.Perm (List.range N)) (hs : LexSortedK K N cols perm) (ht : TieStable K N cols perm) :
+    perm = sortBy (lexLtK K cols) (List.range N) := by
+  have hl : perm.length = N := by rw [hp.length_eq]; simp
+  apply stable_sort_unique (lexLtK K cols) _ _ (hp.trans (sortBy_perm _ _).symm)
+  · rw [List.pairwise_iff_getElem]
+    intro i j hi hj hij
+    have e1 : perm[i] = perm.getD i 0 := by simp [List.getD, List.getElem?_eq_getElem hi]
+    have e2 : perm[j] = perm.getD j 0 := by simp [List.getD, List.getElem?_eq_getElem hj]
+    rw [e1, e2]
+    exact ⟨hs i j hij (by omega), ht i j hij (by omega)⟩
+  · apply sortBy_stable _ _ (lexLtK_swo K cols)
+    simpa [List.range_eq_range'] using (List.pairwise_lt_range' (s := 0) (n := N))
+
+section SortMap
+variable {α β : Type}
+
+theorem insertBy_map (lt : β → β → Bool) (f : α → β) (x : α) : ∀ l : List α,
+    insertBy lt (f x) (l.map f) = (insertBy (fun a b => lt (f a) (f b)) x l).map f
+  | [] => rfl
+  | y :: ys => by
+    simp only [List.map_cons, insertBy]
+    split
+    · simp [insertBy_map lt f x ys]
+    · rfl
+
+theorem sortBy_map (lt : β → β → Bool) (f : α → β) : ∀ l : List α,
+    sortBy lt (l.map f) = (sortBy (fun a b => lt (f a) (f b)) l).map f
+  | [] => rfl
+  | x :: xs => by
+    simp only [List.map_cons, sortBy, sortBy_map lt f xs, insertBy_map]
+
+theorem insertBy_congr (lt1 lt2 : α → α → Bool) (x : α) : ∀ l : List α, (∀ y ∈ l, lt1 y x = lt2 y x) →
+    insertBy lt1 x l = insertBy lt2 x l
+  | [], _ => rfl
+  | y :: ys, h => by
+    simp only [insertBy, h y (by simp), insertBy_congr lt1 lt2 x ys (fun z hz => h z (by simp [hz]))]
+
+theorem sortBy_congr (lt1 lt2 : α → α → Bool) : ∀ l : List α, (∀ a ∈ l, ∀ b ∈ l, lt1 a b = lt2 a b) →
+    sortBy lt1 l = sortBy lt2 l
+  | [], _ => rfl
+  | x :: xs, h => by
+    simp only [sortBy]
+    rw [sortBy_congr lt1 lt2 xs (fun a ha b hb => h a (by simp [ha]) b (by simp [hb]))]
+    apply insertBy_congr
+    intro y hy
+    exact h y (by simp [(sortBy_perm lt2 xs).mem_iff.mp hy]) x (by simp)
+
+end SortMap
+
+
+theorem lexLt_rows_gen (t' : Table) (K : Nat → Nat → Key) (perm : List Nat) (i j : Nat) (univ : List Nat)
+    (hK : ∀ d ∈ univ, d ∈ t'.columns ∧ (cellAt (t'.vcol d) i).key = K d (perm.getD i 0) ∧
+      (cellAt (t'.vcol d) j).key = K d (perm.getD j 0)) :
+    ∀ (ds : List Nat), (∀ d ∈ ds, d ∈ univ) →
+    lexLt (idxPositions t'.columns ds) (t'.rowAt j) (t'.rowAt i) = lexLtK K ds (perm.getD j 0) (perm.getD i 0)
+  | [], _ => rfl
+  | d :: ds, h => by
+    obtain ⟨h1, h2, h3⟩ := hK d (h d (by simp))
+    simp only [idxPositions, List.map_cons, lexLt, lexLtK, rowAt_getD t' _ d h1, h2, h3]
+    rw [show List.map (fun d => List.idxOf d t'.columns) ds = idxPositions t'.columns ds from rfl,
+      lexLt_rows_gen t' K perm i j univ hK ds (fun d' hd' => h d' (by simp [hd']))]
+
 /-- **index** = a permutation of the rows (cells kept up to `==` in the index columns, exactly
-elsewhere) that puts them in non-decreasing lexicographic order of the index columns -/
+elsewhere) that puts them in non-decreasing lexicographic order of the index columns, ties in their
+original order: the stable lexicographic sort -/
 theorem index_rows_spec (cfg : Cfg) (t : Table) (N : Nat) (hok : t.OK N) (hsel : t.sel = .all) (indx : List Nat)
     (hne : indx ≠ []) (hcne : t.columns ≠ []) (hnd : (effIndex cfg t indx).Nodup) (hdiff : t.indexes ≠ effIndex cfg t indx)
     (hcols : ∀ d ∈ effIndex cfg t indx, d ∈ t.columns ∧ IdxColOK t N d) :
@@ -3114,12 +3423,15 @@ theorem index_rows_spec (cfg : Cfg) (t : Table) (N : Nat) (hok : t.OK N) (hsel :
       (∀ i, i < N → ∀ k, k < t.columns.length → t.columns.getD k 0 ∉ effIndex cfg t indx →
         (R'.getD i []).getD k .missing = (R.getD (perm.getD i 0) []).getD k .missing) ∧
       (∀ i j, i < j → j < N →
-        lexLt (idxPositions t.columns (effIndex cfg t indx)) (R'.getD j []) (R'.getD i []) = false) := by
+        lexLt (idxPositions t.columns (effIndex cfg t indx)) (R'.getD j []) (R'.getD i []) = false) ∧
+      (∀ i j, i < j → j < N →
+        lexLt (idxPositions t.columns (effIndex cfg t indx)) (R'.getD i []) (R'.getD j []) = false → perm.getD i 0 < perm.getD j 0) ∧
+      R'.map (List.map Cell.key) = (indexS (idxPositions t.columns (effIndex cfg t indx)) R).map (List.map Cell.key) := by
   have hdata : t.data ≠ [] := by
     obtain ⟨c, hc⟩ := List.exists_mem_of_ne_nil _ hcne
     obtain ⟨b, hb⟩ := hok.cols c hc
     exact List.ne_nil_of_mem (lookupCol_mem hb)
-  obtain ⟨t', perm, e, hperm, hcolumns, hidx, hsel', hok', hcolsp, hsorted⟩ :=
+  obtain ⟨t', perm, e, hperm, hcolumns, hidx, hsel', hok', hcolsp, hsorted, htieS⟩ :=
     index_data_spec cfg t N hok hsel indx hne hdata hnd hdiff (fun d hd => (hcols d hd).2)
   have hm : t.m N = N := by simp [Table.m, hsel, Sel.idx]
   have hm' : t'.m N = N := by simp [Table.m, hsel', Sel.idx]
@@ -3144,7 +3456,54 @@ theorem index_rows_spec (cfg : Cfg) (t : Table) (N : Nat) (hok : t.OK N) (hsel :
     rw [vcol_all t hsel, vcol_all t' hsel', e1, e2]
     refine ⟨hk i hi, fun hni => ?_⟩
     rw [hex hni, cellAt_map_getD (cellAt b) perm i (by omega)]
-  refine ⟨t', perm, _, _, e, hR, hR', hcolumns, hidx, by simp, by simp, hperm, ?_, ?_, ?_⟩
+  have hkeys : ∀ i, i < N → (t'.rowAt i).map Cell.key = (t.rowAt (perm.getD i 0)).map Cell.key := by
+    intro i hi
+    simp only [Table.rowAt, List.map_map, hcolumns]
+    apply List.map_congr_left
+    intro c hc
+    exact (hcell c hc i hi).1
+  have hlexK : ∀ i j, i < N → j < N → lexLt (idxPositions t.columns (effIndex cfg t indx)) (t'.rowAt j) (t'.rowAt i)
+      = lexLtK (K0 t) (effIndex cfg t indx) (perm.getD j 0) (perm.getD i 0) := by
+    intro i j hi hj
+    rw [← hcolumns]
+    exact lexLt_rows_gen t' (K0 t) perm i j (effIndex cfg t indx) (by
+      intro d hd
+      have hdc := (hcols d hd).1
+      refine ⟨by rw [hcolumns]; exact hdc, ?_, ?_⟩
+      · rw [(hcell d hdc i hi).1, vcol_all t hsel]; rfl
+      · rw [(hcell d hdc j hj).1, vcol_all t hsel]; rfl) _ (fun d hd => hd)
+  refine ⟨t', perm, _, _, e, hR, hR', hcolumns, hidx, by simp, by simp, hperm, ?_, ?_, ?_, ?_, ?_⟩
+  rotate_left 3
+  · intro i j hij hj htie
+    rw [getR' i (by omega), getR' j hj, hlexK j i hj (by omega)] at htie
+    exact htieS i j hij hj htie
+  · -- the stable lexicographic sort
+    have hpe := perm_eq_sortBy (K0 t) N _ perm hperm hsorted htieS
+    have hL : ((List.range N).map t'.rowAt).map (List.map Cell.key) = perm.map (fun i => (t.rowAt i).map Cell.key) := by
+      apply List.ext_getElem
+      · simp [hpl]
+      · intro i h1 h2
+        simp only [List.length_map, List.length_range] at h1
+        simp only [List.getElem_map, List.getElem_range]
+        rw [hkeys i h1]
+        simp [List.getD, List.getElem?_eq_getElem (show i < perm.length by omega)]
+    rw [hL]
+    simp only [indexS]
+    rw [sortBy_map, List.map_map]
+    have hcong : sortBy (fun a b => lexLt (idxPositions t.columns (effIndex cfg t indx)) (t.rowAt a) (t.rowAt b)) (List.range N)
+        = sortBy (lexLtK (K0 t) (effIndex cfg t indx)) (List.range N) := by
+      apply sortBy_congr
+      intro a ha b hb
+      simp only [List.mem_range] at ha hb
+      have := lexLt_rows_gen t (K0 t) (List.range N) b a (effIndex cfg t indx) (by
+        intro d hd
+        refine ⟨(hcols d hd).1, ?_, ?_⟩
+        · rw [getD_range N b hb, vcol_all t hsel]; rfl
+        · rw [getD_range N a ha, vcol_all t hsel]; rfl) _ (fun d hd => hd)
+      rw [getD_range N a ha, getD_range N b hb] at this
+      exact this
+    rw [hcong, ← hpe]
+    rfl
   · intro i hi
     rw [getR' i hi, getR _ (perm_getD_lt hperm i hi)]
     simp only [Table.rowAt, List.map_map, hcolumns]
@@ -3179,7 +3538,10 @@ theorem index_spec' (cfg : Cfg) (t : Table) (indx : List Nat) (hwf : indexWF cfg
       (∀ i, i < R.length → ∀ k, k < t.columns.length → t.columns.getD k 0 ∉ effIndex cfg t indx →
         (R'.getD i []).getD k .missing = (R.getD (perm.getD i 0) []).getD k .missing) ∧
       (∀ i j, i < j → j < R.length →
-        lexLt (idxPositions t.columns (effIndex cfg t indx)) (R'.getD j []) (R'.getD i []) = false) := by
+        lexLt (idxPositions t.columns (effIndex cfg t indx)) (R'.getD j []) (R'.getD i []) = false) ∧
+      (∀ i j, i < j → j < R.length →
+        lexLt (idxPositions t.columns (effIndex cfg t indx)) (R'.getD i []) (R'.getD j []) = false → perm.getD i 0 < perm.getD j 0) ∧
+      R'.map (List.map Cell.key) = (indexS (idxPositions t.columns (effIndex cfg t indx)) R).map (List.map Cell.key) := by
   unfold indexWF at hwf
   split at hwf
   · simp at hwf
@@ -3189,7 +3551,7 @@ theorem index_spec' (cfg : Cfg) (t : Table) (indx : List Nat) (hwf : indexWF cfg
     have hok := tableOKB_sound h2
     have hne : indx ≠ [] := by intro e; simp [e] at h3
     have hcne : t.columns ≠ [] := by intro e; simp [e] at h4
-    obtain ⟨t', perm, R, R', a1, a2, a3, a4, a5, a6, a7, a8, a9, a10, a11⟩ :=
+    obtain ⟨t', perm, R, R', a1, a2, a3, a4, a5, a6, a7, a8, a9, a10, a11, a12, a13⟩ :=
       index_rows_spec cfg t b.length hok h1 indx hne hcne h5 h6 (by
         intro d hd'
         obtain ⟨⟨c1, c2⟩, c3⟩ := h7 d hd'
@@ -3203,10 +3565,11 @@ theorem index_spec' (cfg : Cfg) (t : Table) (indx : List Nat) (hwf : indexWF cfg
           have := (allIn_iff _ _ _).mp c3 x (Nat.zero_le _) hx
           simp only [Bool.and_eq_true] at this
           simpa [K0] using this.1)
-    refine ⟨t', perm, R, R', a1, a2, a3, a4, a5, by omega, by rw [a6]; exact a8, ?_, ?_, ?_⟩
+    refine ⟨t', perm, R, R', a1, a2, a3, a4, a5, by omega, by rw [a6]; exact a8, ?_, ?_, ?_, ?_, a13⟩
     · rw [a6]; exact a9
     · rw [a6]; exact a10
     · rw [a6]; exact a11
+    · rw [a6]; exact a12
 
 
 /-! ## `_calc_lohis` on a table whose rows are in index order -/
@@ -3222,9 +3585,6 @@ structure Indexed (t : Table) (N : Nat) : Prop where
   sorted : ∀ i j, i < j → j < t.m N → lexLtK (Kt t) t.indexes j i = false
   cmp : ∀ d ∈ t.indexes, ∀ x y, x < t.m N → y < t.m N → (Kt t d x).comparable (Kt t d y) = true
   nn : ∀ d ∈ t.indexes, ∀ x, x < t.m N → Kt t d x ≠ .none
-
-theorem getD_range (m i : Nat) (h : i < m) : (List.range m).getD i 0 = i := by
-  simp [List.getD, h]
 
 /-- the levels `_calc_lohis` builds: level `j` satisfies the stage invariant for the first `j` index
 columns; from the second level on the segments are not empty -/
@@ -3483,7 +3843,7 @@ theorem index_indexed (cfg : Cfg) (t : Table) (N : Nat) (hok : t.OK N) (hsel : t
     (hne : indx ≠ []) (hdata : t.data ≠ []) (hnd : (effIndex cfg t indx).Nodup) (hdiff : t.indexes ≠ effIndex cfg t indx)
     (hcols : ∀ d ∈ effIndex cfg t indx, IdxColOK t N d) :
     ∃ t', t.index cfg indx = .ok t' ∧ t'.OK N ∧ Indexed t' N := by
-  obtain ⟨t', perm, e, hperm, hcolumns, hidx, hsel', hok', hcolsp, hsorted⟩ :=
+  obtain ⟨t', perm, e, hperm, hcolumns, hidx, hsel', hok', hcolsp, hsorted, _⟩ :=
     index_data_spec cfg t N hok hsel indx hne hdata hnd hdiff hcols
   have hm' : t'.m N = N := by simp [Table.m, hsel', Sel.idx]
   have hK : ∀ d ∈ effIndex cfg t indx, ∀ i, i < N → Kt t' d i = K0 t d (perm.getD i 0) := by
@@ -3767,5 +4127,877 @@ theorem insert_rows_spec' (cfg : Cfg) (t : Table) (N : Nat) (hok : t.OK N) (hsel
         simp only [Table.base, hb']
         rw [cellAt_append_right b _ i (by omega), hbl, cellAt_map_rows (r :: rs) _ (i - N) hk]
 
+
+/-! ## table objects that share storage -/
+
+def TOp.mutates : TOp → Bool
+  | .insert _ _ => true
+  | .index _ _ => true
+  | _ => false
+
+/-- `where`, `groupby`, `copy` (and looking at a table) leave every existing table object as it is -/
+theorem step_query_preserves (cfg : Cfg) (ts : List (Option Table)) (op : TOp) (hop : op.mutates = false)
+    (i : Nat) (hi : i < ts.length) : (step cfg ts op).1[i]? = ts[i]? := by
+  cases op with
+  | insert _ _ => simp [TOp.mutates] at hop
+  | index _ _ => simp [TOp.mutates] at hop
+  | skip c => cases c <;> simp [step, List.getElem?_append_left hi]
+  | peek j => simp only [step]; split <;> rfl
+  | whr j p c k =>
+    simp only [step]
+    split
+    · exact List.getElem?_append_left hi
+    · split <;> exact List.getElem?_append_left hi
+  | groupby j l s =>
+    simp only [step]
+    split
+    · rfl
+    · split <;> rfl
+  | copy j =>
+    simp only [step]
+    split <;> exact List.getElem?_append_left hi
+
+
+
+/-! ## `insert` of a column mapping / of dict rows -/
+
+theorem mem_insertNatSorted (x y : Nat) : ∀ l : List Nat, y ∈ insertNatSorted x l ↔ y = x ∨ y ∈ l
+  | [] => by simp [insertNatSorted]
+  | z :: zs => by
+    simp only [insertNatSorted]
+    split
+    · simp
+    · simp [mem_insertNatSorted x y zs]; tauto
+
+theorem mem_sortNat (y : Nat) : ∀ l : List Nat, y ∈ sortNat l ↔ y ∈ l
+  | [] => by simp [sortNat]
+  | x :: xs => by simp [sortNat, mem_insertNatSorted, mem_sortNat y xs]
+
+theorem mem_dedupNat (y : Nat) : ∀ l : List Nat, y ∈ dedupNat l ↔ y ∈ l
+  | [] => by simp [dedupNat]
+  | x :: xs => by
+    simp only [dedupNat, List.mem_cons, List.mem_filter, mem_dedupNat y xs]
+    constructor
+    · rintro (h | ⟨h, _⟩)
+      · exact Or.inl h
+      · exact Or.inr h
+    · rintro (h | h)
+      · exact Or.inl h
+      · by_cases e : y = x
+        · exact Or.inl e
+        · right; refine ⟨h, ?_⟩; simp; exact fun e' => e e'.symm
+
+/-- the value list of column `c` in a mapping (empty if absent) -/
+def mapVal (cs : List (Nat × List Cell)) (c : Nat) : Option (List Cell) :=
+  (cs.find? (fun q => q.1 == c)).map (·.2)
+
+theorem lookupCol_eq_find (data : List (Nat × List Cell)) (c : Nat) :
+    lookupCol data c = match data.find? (fun p => p.1 == c) with | some p => .ok p.2 | Option.none => .error .keyError := rfl
+
+theorem lookupCol_append (l1 l2 : List (Nat × List Cell)) (c : Nat) :
+    lookupCol (l1 ++ l2) c = match lookupCol l1 c with | .ok b => .ok b | .error _ => lookupCol l2 c := by
+  simp only [lookupCol, List.find?_append]
+  cases h : l1.find? (fun p => p.1 == c) <;> simp
+
+theorem find_filter_key (keep : Nat → Bool) (c : Nat) : ∀ data : List (Nat × List Cell),
+    data.find? (fun a => keep a.1 && a.1 == c) = if keep c then data.find? (fun a => a.1 == c) else Option.none
+  | [] => by by_cases h : keep c <;> simp [h]
+  | p :: rest => by
+    have ih := find_filter_key keep c rest
+    by_cases hp : p.1 = c
+    · subst hp
+      by_cases hk : keep p.1 = true
+      · simp [List.find?_cons, hk]
+      · simp only [Bool.not_eq_true] at hk
+        simp [List.find?_cons, hk] at ih ⊢
+        exact ih
+    · have hpc : (p.1 == c) = false := by simpa using hp
+      simp only [List.find?_cons, hpc, Bool.and_false]
+      exact ih
+
+theorem lookupCol_filter_key (keep : Nat → Bool) (data : List (Nat × List Cell)) (c : Nat) :
+    lookupCol (data.filter (fun p => keep p.1)) c = if keep c then lookupCol data c else .error .keyError := by
+  unfold lookupCol
+  rw [List.find?_filter]
+  have : (fun a : Nat × List Cell => decide (keep a.1 = true ∧ (a.1 == c) = true))
+      = (fun a => keep a.1 && a.1 == c) := by funext a; by_cases h1 : keep a.1 = true <;> by_cases h2 : a.1 = c <;> simp [h1, h2]
+  rw [this, find_filter_key keep c data]
+  by_cases h : keep c = true <;> simp [h]
+
+theorem lookupCol_map_key (f : Nat × List Cell → Nat × List Cell) (hf : ∀ p, (f p).1 = p.1)
+    (data : List (Nat × List Cell)) (c : Nat) :
+    lookupCol (data.map f) c = match data.find? (fun p => p.1 == c) with
+      | some p => .ok (f p).2 | Option.none => .error .keyError := by
+  simp only [lookupCol, List.find?_map]
+  have : ((fun p : Nat × List Cell => p.1 == c) ∘ f) = (fun p => p.1 == c) := by funext p; simp [Function.comp, hf]
+  rw [this]
+  cases data.find? (fun p => p.1 == c) <;> simp
+
+
+theorem cellAt_replicate (n i : Nat) : cellAt (List.replicate n Cell.missing) i = Cell.missing := by
+  simp only [cellAt, List.getD]
+  cases h : (List.replicate n Cell.missing)[i]? with
+  | none => rfl
+  | some c =>
+    have := List.mem_of_getElem? h
+    simp at this
+    simp [this.2]
+
+theorem cellAt_nil (i : Nat) : cellAt [] i = Cell.missing := by simp [cellAt]
+
+/-- a table `insert` works on: it owns its lists, they are as long as the table, every stored list is a column -/
+structure InsertOK (t : Table) (N : Nat) : Prop where
+  ok : t.OK N
+  sel : t.sel = .all
+  keys : ∀ p ∈ t.data, p.1 ∈ t.columns
+  empty : t.data = [] → N = 0
+
+theorem InsertOK.rows_eq {t : Table} {N : Nat} (h : InsertOK t N) (R : List (List Cell)) (hR : t.rows = .ok R) :
+    R = (List.range N).map t.rowAt := by
+  have hm : t.m N = N := by simp [Table.m, h.sel, Sel.idx]
+  by_cases hc : t.columns = []
+  · have hd : t.data = [] := by
+      cases hdd : t.data with
+      | nil => rfl
+      | cons p r => have := h.keys p (by simp [hdd]); simp [hc] at this
+    have hN := h.empty hd
+    subst hN
+    simp only [Table.rows, hc, List.mapM_nil, bind, Except.bind, pure, Except.pure, minLen] at hR
+    have := Except.ok.inj hR
+    simpa using this.symm
+  · have := h.ok.rows_eq hc
+    rw [hR, hm] at this
+    exact Except.ok.inj this
+
+theorem InsertOK.len_eq {t : Table} {N : Nat} (h : InsertOK t N) : t.len = .ok N := by
+  by_cases hd : t.data = []
+  · have := h.empty hd
+    subst this
+    simp [Table.len, hd, h.sel]
+  · have := h.ok.len_eq hd
+    simpa [Table.m, h.sel, Sel.idx] using this
+
+theorem mem_newColsOf (columns keys : List Nat) (c : Nat) : c ∈ newColsOf columns keys ↔ c ∈ keys ∧ c ∉ columns := by
+  simp [newColsOf, mem_sortNat, List.mem_filter, mem_dedupNat]
+
+theorem find_self (c : Nat) : ∀ l : List Nat, c ∈ l → l.find? (fun c' => c' == c) = some c
+  | [], h => by simp at h
+  | x :: xs, h => by
+    by_cases hx : x = c
+    · subst hx; simp
+    · have : (x == c) = false := by simpa using hx
+      simp only [List.find?_cons, this]
+      exact find_self c xs (by simp at h; rcases h with e | e; exact absurd e.symm hx; exact e)
+
+/-- **insert(mapping)**: the stored lists, hence the rows, afterwards -/
+theorem insertCols_spec (t : Table) (N : Nat) (h : InsertOK t N) (cs : List (Nat × List Cell)) (padLen : Option Nat) (k : Nat)
+    (hpad : padLenOf padLen cs = k) (hk : ∀ q ∈ cs, q.2.length = k)
+    (hcne : t.columns ++ newColsOf t.columns (cs.map (·.1)) ≠ [])
+    (R : List (List Cell)) (hR : t.rows = .ok R) :
+    ∃ t', insertCols t cs padLen = .ok t' ∧ t'.columns = (insertColsS t.columns R cs k).1 ∧
+      t'.rows = .ok (insertColsS t.columns R cs k).2 ∧ t'.indexes = t.indexes ∧ InsertOK t' (N + k) := by
+  have hRe := h.rows_eq R hR
+  have hlen := h.len_eq
+  generalize hnc : newColsOf t.columns (cs.map (·.1)) = newCols at *
+  have hnew : ∀ c, c ∈ newCols ↔ (∃ q ∈ cs, q.1 = c) ∧ c ∉ t.columns := by
+    intro c; rw [← hnc, mem_newColsOf]; simp
+  have hvlen : ∀ c, (∃ q ∈ cs, q.1 = c) → (mapValD cs c).length = k := by
+    rintro c ⟨q, hq, rfl⟩
+    simp only [mapValD]
+    cases hf : cs.find? (fun q' => q'.1 == q.1) with
+    | none => have := List.find?_eq_none.mp hf q hq; simp at this
+    | some q' => exact hk q' (List.mem_of_find?_eq_some hf)
+  have hf1 : ∀ p, (extendOld t.columns cs k p).1 = p.1 := by
+    intro p; simp only [extendOld]; split
+    · split <;> rfl
+    · rfl
+  let fresh : List (Nat × List Cell) := newCols.map (fun c => (c, List.replicate N Cell.missing ++ mapValD cs c))
+  let data2 := (t.data.map (extendOld t.columns cs k)).filter (fun p => !(newCols.contains p.1)) ++ fresh
+  have hrun : insertCols t cs padLen = .ok { t with data := data2, columns := t.columns ++ newCols } := by
+    simp only [insertCols, hnc, hpad]
+    by_cases hne : newCols.isEmpty = true
+    · have : newCols = [] := by simpa using hne
+      simp only [hne, if_true]
+      simp [data2, fresh, this]
+    · simp only [hne, hlen]
+      rfl
+  -- the stored lists afterwards
+  have hold : ∀ c ∈ t.columns, ∃ b, lookupCol t.data c = .ok b ∧ b.length = N ∧
+      lookupCol data2 c = .ok (b ++ (if (∃ q ∈ cs, q.1 = c) then mapValD cs c else List.replicate k Cell.missing)) := by
+    intro c hc
+    obtain ⟨b, hb⟩ := h.ok.cols c hc
+    refine ⟨b, hb, h.ok.len _ (lookupCol_mem hb), ?_⟩
+    have hnot : c ∉ newCols := fun hm => ((hnew c).mp hm).2 hc
+    have hkeep : (!(newCols.contains c)) = true := by simpa using hnot
+    rw [lookupCol_append, lookupCol_filter_key (fun x => !(newCols.contains x)), hkeep, if_pos rfl,
+      lookupCol_map_key _ hf1]
+    have hbf : t.data.find? (fun p => p.1 == c) = some (c, b) := by
+      unfold lookupCol at hb
+      cases hfd : t.data.find? (fun p => p.1 == c) with
+      | none => simp [hfd] at hb
+      | some p =>
+        have := List.find?_some hfd
+        simp only [beq_iff_eq] at this
+        simp [hfd] at hb
+        cases p; simp_all
+    have hcon : t.columns.contains c = true := by simpa using hc
+    simp only [hbf, extendOld, hcon, if_true, mapValD]
+    cases hf : cs.find? (fun q => q.1 == c) with
+    | none =>
+      have : ¬ ∃ q ∈ cs, q.1 = c := by
+        rintro ⟨q, hq, e⟩
+        have := List.find?_eq_none.mp hf q hq
+        simp [e] at this
+      simp [this]
+    | some q =>
+      have : ∃ q ∈ cs, q.1 = c := ⟨q, List.mem_of_find?_eq_some hf, by simpa using List.find?_some hf⟩
+      simp [this]
+  have hfresh : ∀ c ∈ newCols, lookupCol data2 c = .ok (List.replicate N Cell.missing ++ mapValD cs c) := by
+    intro c hc
+    have hkeep : (!(newCols.contains c)) = false := by simpa using hc
+    rw [lookupCol_append, lookupCol_filter_key (fun x => !(newCols.contains x)), hkeep]
+    simp only [Bool.false_eq_true, if_false]
+    have : fresh.find? (fun p => p.1 == c) = some (c, List.replicate N Cell.missing ++ mapValD cs c) := by
+      simp only [fresh, List.find?_map]
+      have hcomp : ((fun p : Nat × List Cell => p.1 == c) ∘ fun c' => (c', List.replicate N Cell.missing ++ mapValD cs c')) = (fun c' => c' == c) := by
+        funext c'; rfl
+      rw [hcomp, find_self c newCols hc]; rfl
+    simp [lookupCol, this]
+  have hok' : InsertOK { t with data := data2, columns := t.columns ++ newCols } (N + k) := by
+    refine ⟨⟨?_, ?_, by rw [h.sel]; exact ⟨by simpa [Sel.idx, StrictInc, List.range_eq_range'] using (List.pairwise_lt_range' (s := 0) (n := N + k)), by simp [Sel.idx]⟩⟩, h.sel, ?_, ?_⟩
+    · intro p hp
+      simp only [data2, List.mem_append, List.mem_filter, List.mem_map] at hp
+      rcases hp with ⟨⟨q, hq, rfl⟩, _⟩ | hp
+      · have hqc := h.keys q hq
+        have hcon : t.columns.contains q.1 = true := by simpa using hqc
+        have hql := h.ok.len q hq
+        simp only [extendOld, hcon, if_true]
+        cases hf : cs.find? (fun q' => q'.1 == q.1) with
+        | none => simp [hql]
+        | some q' => simp [hql, hk q' (List.mem_of_find?_eq_some hf)]
+      · simp only [fresh, List.mem_map] at hp
+        obtain ⟨c, hc, rfl⟩ := hp
+        simp [hvlen c ((hnew c).mp hc).1]
+    · intro c hc
+      rw [List.mem_append] at hc
+      rcases hc with hc | hc
+      · obtain ⟨b, _, _, e⟩ := hold c hc
+        exact ⟨_, e⟩
+      · exact ⟨_, hfresh c hc⟩
+    · intro p hp
+      simp only [data2, List.mem_append, List.mem_filter, List.mem_map] at hp
+      rcases hp with ⟨⟨q, hq, rfl⟩, _⟩ | hp
+      · rw [hf1]; exact List.mem_append_left _ (h.keys q hq)
+      · simp only [fresh, List.mem_map] at hp
+        obtain ⟨c, hc, rfl⟩ := hp
+        exact List.mem_append_right _ hc
+    · intro hd
+      -- no stored list afterwards: impossible, there is at least one column
+      exfalso
+      obtain ⟨c, hc⟩ := List.exists_mem_of_ne_nil _ hcne
+      rw [List.mem_append] at hc
+      have : ∃ b, lookupCol data2 c = .ok b := by
+        rcases hc with hc | hc
+        · obtain ⟨b, _, _, e⟩ := hold c hc; exact ⟨_, e⟩
+        · exact ⟨_, hfresh c hc⟩
+      obtain ⟨b, hb⟩ := this
+      have := lookupCol_mem hb
+      simp only at hd
+      rw [hd] at this
+      simp at this
+  refine ⟨_, hrun, by simp [insertColsS, hnc], ?_, rfl, hok'⟩
+  -- rows
+  have hm' : Table.m { t with data := data2, columns := t.columns ++ newCols } (N + k) = N + k := by
+    simp [Table.m, h.sel, Sel.idx]
+  rw [hok'.ok.rows_eq hcne, hm', hRe]
+  simp only [insertColsS, hnc]
+  congr 1
+  have hcell : ∀ c ∈ t.columns ++ newCols, ∀ i, cellAt (Table.vcol { t with data := data2, columns := t.columns ++ newCols } c) i =
+      if i < N then (if c ∈ t.columns then cellAt (t.vcol c) i else Cell.missing) else cellAt (mapValD cs c) (i - N) := by
+    intro c hc i
+    rw [vcol_all _ (by exact h.sel)]
+    rw [List.mem_append] at hc
+    by_cases hcc : c ∈ t.columns
+    · obtain ⟨b, hb, hbl, e⟩ := hold c hcc
+      simp only [Table.base, e, hcc, if_true]
+      by_cases hi : i < N
+      · simp only [hi, if_true]
+        rw [cellAt_append_left b _ i (by omega), vcol_all t h.sel]
+        simp [Table.base, hb]
+      · simp only [hi, if_false]
+        rw [cellAt_append_right b _ i (by omega), hbl]
+        by_cases hex : ∃ q ∈ cs, q.1 = c
+        · simp [hex]
+        · simp only [hex, if_false, cellAt_replicate]
+          have : mapValD cs c = [] := by
+            simp only [mapValD]
+            cases hf : cs.find? (fun q => q.1 == c) with
+            | none => rfl
+            | some q => exact absurd ⟨q, List.mem_of_find?_eq_some hf, by simpa using List.find?_some hf⟩ hex
+          rw [this, cellAt_nil]
+    · have hcn : c ∈ newCols := by rcases hc with hc | hc; exact absurd hc hcc; exact hc
+      simp only [Table.base, hfresh c hcn, hcc, if_false]
+      by_cases hi : i < N
+      · simp only [hi, if_true]
+        rw [cellAt_append_left _ _ i (by simpa using hi), cellAt_replicate]
+      · simp only [hi, if_false]
+        rw [cellAt_append_right _ _ i (by simpa using hi)]
+        simp
+  apply List.ext_getElem
+  · simp
+  · intro i hi1 hi2
+    simp only [List.length_map, List.length_range] at hi1
+    simp only [List.getElem_map, List.getElem_range]
+    by_cases hiN : i < N
+    · rw [List.getElem_append_left (by simpa using hiN)]
+      simp only [List.getElem_map, List.getElem_range, Table.rowAt, List.map_append]
+      congr 1
+      · apply List.map_congr_left
+        intro c hc
+        rw [hcell c (List.mem_append_left _ hc) i]
+        simp [hiN, hc]
+      · apply List.map_congr_left
+        intro c hc
+        rw [hcell c (List.mem_append_right _ hc) i]
+        simp [hiN, ((hnew c).mp hc).2]
+    · rw [List.getElem_append_right (by simpa using hiN)]
+      simp only [List.length_map, List.length_range, List.getElem_map, List.getElem_range, Table.rowAt]
+      apply List.map_congr_left
+      intro c hc
+      rw [hcell c hc i]
+      simp [hiN]
+
+
+theorem dedupNat_of_nodup : ∀ l : List Nat, l.Nodup → dedupNat l = l
+  | [], _ => rfl
+  | x :: xs, h => by
+    rw [List.nodup_cons] at h
+    simp only [dedupNat, dedupNat_of_nodup xs h.2]
+    congr 1
+    apply List.filter_eq_self.mpr
+    intro y hy
+    simp
+    rintro rfl; exact h.1 hy
+
+theorem nodup_dedupNat : ∀ l : List Nat, (dedupNat l).Nodup
+  | [] => List.nodup_nil
+  | x :: xs => by
+    simp only [dedupNat]
+    rw [List.nodup_cons]
+    refine ⟨by simp [List.mem_filter], (nodup_dedupNat xs).filter _⟩
+
+theorem dedupNat_idem (l : List Nat) : dedupNat (dedupNat l) = dedupNat l :=
+  dedupNat_of_nodup _ (nodup_dedupNat l)
+
+theorem dictsToCols_keys (ds : List (List (Nat × Cell))) :
+    (dictsToCols ds).map (·.1) = dedupNat (ds.flatMap (fun d => d.map (·.1))) := by
+  simp only [dictsToCols, List.map_map]
+  have : ((fun x : Nat × List Cell => x.1) ∘ fun k => (k, ds.map (fun d => assocGet d k))) = id := by funext k; rfl
+  rw [this, List.map_id]
+
+theorem newColsOf_dedup (columns keys : List Nat) : newColsOf columns (dedupNat keys) = newColsOf columns keys := by
+  simp [newColsOf, dedupNat_idem]
+
+theorem assocGet_missing (d : List (Nat × Cell)) (c : Nat) (h : ∀ p ∈ d, p.1 ≠ c) : assocGet d c = Cell.missing := by
+  simp only [assocGet]
+  cases hf : d.find? (fun p => p.1 == c) with
+  | none => rfl
+  | some p => exact absurd (by simpa using List.find?_some hf) (h p (List.mem_of_find?_eq_some hf))
+
+theorem mapValD_dicts (ds : List (List (Nat × Cell))) (c : Nat) (i : Nat) (hi : i < ds.length) :
+    cellAt (mapValD (dictsToCols ds) c) i = assocGet ds[i] c := by
+  simp only [mapValD, dictsToCols, List.find?_map]
+  have hcomp : ((fun q : Nat × List Cell => q.1 == c) ∘ fun k => (k, ds.map (fun d => assocGet d k))) = (fun k => k == c) := by
+    funext k; rfl
+  rw [hcomp]
+  by_cases hc : c ∈ dedupNat (ds.flatMap (fun d => d.map (·.1)))
+  · rw [find_self c _ hc]
+    simp [cellAt, List.getD, hi]
+  · have hn : (dedupNat (ds.flatMap (fun d => d.map (·.1)))).find? (fun k => k == c) = Option.none := by
+      rw [List.find?_eq_none]
+      intro k hk hkc
+      have : k = c := by simpa using hkc
+      exact hc (this ▸ hk)
+    simp only [hn, Option.map_none, cellAt_nil]
+    symm
+    apply assocGet_missing
+    intro p hp hpc
+    apply hc
+    rw [mem_dedupNat, List.mem_flatMap]
+    exact ⟨ds[i], List.getElem_mem hi, List.mem_map.mpr ⟨p, hp, hpc⟩⟩
+
+/-- **insert(mapping)** -/
+theorem insert_mapping_rows' (cfg : Cfg) (t : Table) (N : Nat) (h : InsertOK t N) (q0 : Nat × List Cell) (cs : List (Nat × List Cell))
+    (hk : ∀ q ∈ q0 :: cs, q.2.length = q0.2.length)
+    (hcne : t.columns ++ newColsOf t.columns ((q0 :: cs).map (·.1)) ≠ [])
+    (R : List (List Cell)) (hR : t.rows = .ok R) :
+    ∃ t', t.insert cfg (.cols (q0 :: cs)) = .ok t' ∧ t'.columns = (insertColsS t.columns R (q0 :: cs) q0.2.length).1 ∧
+      t'.rows = .ok (insertColsS t.columns R (q0 :: cs) q0.2.length).2 ∧ t'.indexes = t.indexes ∧ InsertOK t' (N + q0.2.length) := by
+  obtain ⟨t', e, a, b, c, d⟩ := insertCols_spec t N h (q0 :: cs) Option.none q0.2.length (by cases q0; rfl) hk hcne R hR
+  exact ⟨t', by simpa [Table.insert] using e, a, b, c, d⟩
+
+/-- **insert(dict rows)** -/
+theorem insert_dicts_rows' (cfg : Cfg) (t : Table) (N : Nat) (h : InsertOK t N) (d0 : List (Nat × Cell)) (ds : List (List (Nat × Cell)))
+    (hpad : cfg.dictLen = true ∨ dictsToCols (d0 :: ds) ≠ [])
+    (hcne : t.columns ++ newColsOf t.columns ((d0 :: ds).flatMap (fun d => d.map (·.1))) ≠ [])
+    (R : List (List Cell)) (hR : t.rows = .ok R) :
+    ∃ t', t.insert cfg (.dicts (d0 :: ds)) = .ok t' ∧ t'.columns = (insertDictsS t.columns R (d0 :: ds)).1 ∧
+      t'.rows = .ok (insertDictsS t.columns R (d0 :: ds)).2 ∧ t'.indexes = t.indexes ∧ InsertOK t' (N + (d0 :: ds).length) := by
+  have hkeys := dictsToCols_keys (d0 :: ds)
+  have hnc : newColsOf t.columns ((dictsToCols (d0 :: ds)).map (·.1)) = newColsOf t.columns ((d0 :: ds).flatMap (fun d => d.map (·.1))) := by
+    rw [hkeys, newColsOf_dedup]
+  obtain ⟨t', e, a, b, c, d⟩ := insertCols_spec t N h (dictsToCols (d0 :: ds))
+    (if cfg.dictLen then some (d0 :: ds).length else if (dictsToCols (d0 :: ds)).isEmpty then some 1 else Option.none)
+    (d0 :: ds).length (by
+      by_cases hd : cfg.dictLen = true
+      · simp [hd, padLenOf]
+      · have hne : dictsToCols (d0 :: ds) ≠ [] := by rcases hpad with h' | h'; exact absurd h' hd; exact h'
+        have : (dictsToCols (d0 :: ds)).isEmpty = false := by cases hq : dictsToCols (d0 :: ds) <;> simp_all
+        simp only [hd, this, Bool.false_eq_true, if_false]
+        cases hq : dictsToCols (d0 :: ds) with
+        | nil => exact absurd hq hne
+        | cons q rest =>
+          have hm : q ∈ dictsToCols (d0 :: ds) := by simp [hq]
+          simp only [dictsToCols, List.mem_map] at hm
+          obtain ⟨k, _, rfl⟩ := hm
+          simp [padLenOf])
+    (by
+      intro q hq
+      simp only [dictsToCols, List.mem_map] at hq
+      obtain ⟨k, _, rfl⟩ := hq
+      simp)
+    (by rw [hnc]; exact hcne) R hR
+  refine ⟨t', by simpa [Table.insert] using e, ?_, ?_, c, d⟩
+  · rw [a]; simp only [insertColsS, insertDictsS, hnc]
+  · rw [b]
+    simp only [insertColsS, insertDictsS, hnc]
+    congr 2
+    apply List.ext_getElem
+    · simp
+    · intro i h1 h2
+      simp only [List.length_map, List.length_range] at h1
+      simp only [List.getElem_map, List.getElem_range]
+      apply List.map_congr_left
+      intro c _
+      exact mapValD_dicts (d0 :: ds) c i h1
+
+
+/-! ## everything the specification does depends on cells only through their keys -/
+
+theorem cell_none_iff (c : Cell) : c = Cell.none ↔ c.key = Key.none := by cases c <;> simp [Cell.key]
+theorem cell_missing_iff (c : Cell) : c = Cell.missing ↔ c.key = Key.missing := by cases c <;> simp [Cell.key]
+
+theorem pyEq_congr {c c' : Cell} (h : c.key = c'.key) (v : Cell) : pyEq c v = pyEq c' v := by simp [pyEq, h]
+theorem pyIn_congr {c c' : Cell} (h : c.key = c'.key) (vs : List Cell) : pyIn c vs = pyIn c' vs := by
+  simp only [pyIn]; congr 1; funext v; exact pyEq_congr h v
+
+theorem sat_congr {c c' : Cell} (h : c.key = c'.key) (op : Op) (a : ArgV) : sat op a c = sat op a c' := by
+  have hn : (c = Cell.none) = (c' = Cell.none) := by rw [cell_none_iff, cell_none_iff, h]
+  cases a <;> cases op <;> simp only [sat, satOrd, pyLt, pyLe, pyGe, pyGt, hn, h, pyEq_congr h, pyIn_congr h]
+
+theorem cellPred_congr {c c' : Cell} (h : c.key = c'.key) : ∀ p : CellPred, p.eval c = p.eval c'
+  | .eqv v => by simp [CellPred.eval, pyEq_congr h]
+  | .inl vs => by simp [CellPred.eval, pyIn_congr h]
+  | .isMissing => by simp [CellPred.eval, cell_missing_iff, h]
+  | .isNone => by simp [CellPred.eval, cell_none_iff, h]
+  | .const b => rfl
+  | .notp p => by simp [CellPred.eval, cellPred_congr h p]
+
+theorem test_congr {c c' : Cell} (h : c.key = c'.key) : ∀ t : Test, t.eval c = t.eval c'
+  | .cmp op a => by simp [Test.eval, sat_congr h]
+  | .fn p => by simp [Test.eval, cellPred_congr h]
+
+/-- rows equal up to `==` -/
+def KeyEq (r s : List Cell) : Prop := r.map Cell.key = s.map Cell.key
+
+theorem KeyEq.getD {r s : List Cell} (h : KeyEq r s) (k : Nat) : (r.getD k .missing).key = (s.getD k .missing).key := by
+  have hl : r.length = s.length := by simpa using congrArg List.length h
+  by_cases hk : k < r.length
+  · have hk' : k < s.length := by omega
+    have := congrArg (fun l => l[k]?) h
+    simp only [List.getElem?_map, List.getElem?_eq_getElem hk, List.getElem?_eq_getElem hk', Option.map_some, Option.some.injEq] at this
+    simp [List.getD, List.getElem?_eq_getElem hk, List.getElem?_eq_getElem hk', this]
+  · simp [List.getD, List.getElem?_eq_none (by omega : r.length ≤ k), List.getElem?_eq_none (by omega : s.length ≤ k)]
+
+theorem rowPred_congr {r s : List Cell} (h : KeyEq r s) : ∀ p : RowPred, p.eval r = p.eval s
+  | .cell k p => by simp only [RowPred.eval]; exact cellPred_congr (h.getD k) p
+  | .or a b => by simp [RowPred.eval, rowPred_congr h a, rowPred_congr h b]
+  | .and a b => by simp [RowPred.eval, rowPred_congr h a, rowPred_congr h b]
+
+theorem cellOf_congr (columns : List Nat) (c : Nat) : ∀ {r s : List Cell}, KeyEq r s →
+    (∃ e, cellOf columns r c = .error e ∧ cellOf columns s c = .error e) ∨
+    (∃ x y, cellOf columns r c = .ok x ∧ cellOf columns s c = .ok y ∧ x.key = y.key) := by
+  induction columns with
+  | nil => intro r s _; left; exact ⟨.keyError, by simp [cellOf], by simp [cellOf]⟩
+  | cons d ds ih =>
+    intro r s h
+    cases r with
+    | nil =>
+      have : s = [] := by simpa [KeyEq] using h.symm
+      subst this; left; exact ⟨.keyError, by simp [cellOf], by simp [cellOf]⟩
+    | cons x xs =>
+      cases s with
+      | nil => simp [KeyEq] at h
+      | cons y ys =>
+        simp only [KeyEq, List.map_cons, List.cons.injEq] at h
+        by_cases hd : d = c
+        · right; exact ⟨x, y, by simp [cellOf, hd], by simp [cellOf, hd], h.1⟩
+        · have hdc : (d == c) = false := by simpa using hd
+          have := ih (r := xs) (s := ys) h.2
+          simpa [cellOf, List.zip_cons_cons, List.find?_cons, hdc] using this
+
+theorem satRow_congr (columns : List Nat) {r s : List Cell} (h : KeyEq r s) : ∀ conds : List Cond,
+    satRow columns r conds = satRow columns s conds
+  | [] => rfl
+  | k :: ks => by
+    simp only [satRow]
+    rcases cellOf_congr columns k.col h with ⟨e, e1, e2⟩ | ⟨x, y, e1, e2, hk⟩
+    · rw [e1, e2]
+    · rw [e1, e2]
+      simp only [test_congr hk k.test, satRow_congr columns h ks]
+
+theorem filterRows_congr (t1 t2 : List Cell → Except Err Bool) :
+    ∀ {R S : List (List Cell)}, List.Forall₂ KeyEq R S → (∀ r s, KeyEq r s → t1 r = t2 s) →
+    (∃ e, filterRows t1 R = .error e ∧ filterRows t2 S = .error e) ∨
+    (∃ rs ss, filterRows t1 R = .ok rs ∧ filterRows t2 S = .ok ss ∧ List.Forall₂ KeyEq rs ss) := by
+  intro R S h ht
+  induction h with
+  | nil => right; exact ⟨[], [], rfl, rfl, List.Forall₂.nil⟩
+  | @cons r s R S hrs _ ih =>
+    simp only [filterRows, ht r s hrs]
+    cases t2 s with
+    | error e => left; exact ⟨e, rfl, rfl⟩
+    | ok b =>
+      rcases ih with ⟨e, e1, e2⟩ | ⟨rs, ss, e1, e2, hf⟩
+      · left; exact ⟨e, by rw [e1], by rw [e2]⟩
+      · right
+        rw [e1, e2]
+        by_cases hb : b = true
+        · exact ⟨r :: rs, s :: ss, by simp [hb], by simp [hb], List.Forall₂.cons hrs hf⟩
+        · exact ⟨rs, ss, by simp [hb], by simp [hb], hf⟩
+
+theorem forall2_keyEq_iff {R S : List (List Cell)} :
+    List.Forall₂ KeyEq R S ↔ R.map (List.map Cell.key) = S.map (List.map Cell.key) := by
+  constructor
+  · intro h
+    induction h with
+    | nil => rfl
+    | cons h1 _ ih => simp only [List.map_cons, ih]; rw [show _ = _ from h1]
+  · intro h
+    induction R generalizing S with
+    | nil => cases S with
+      | nil => exact List.Forall₂.nil
+      | cons _ _ => simp at h
+    | cons r R ih => cases S with
+      | nil => simp at h
+      | cons s S =>
+        simp only [List.map_cons, List.cons.injEq] at h
+        exact List.Forall₂.cons h.1 (ih h.2)
+
+theorem filter_congr (p : List Cell → Bool) (q : List Cell → Bool) : ∀ {R S : List (List Cell)}, List.Forall₂ KeyEq R S →
+    (∀ r s, KeyEq r s → p r = q s) → List.Forall₂ KeyEq (R.filter p) (S.filter q) := by
+  intro R S h hp
+  induction h with
+  | nil => exact List.Forall₂.nil
+  | @cons r s R S hrs _ ih =>
+    simp only [List.filter_cons, hp r s hrs]
+    split
+    · exact List.Forall₂.cons hrs ih
+    · exact ih
+
+section SortCongr
+variable {α : Type} (E : α → α → Prop) (lt1 lt2 : α → α → Bool)
+
+theorem insertBy_forall2 (hlt : ∀ a a' b b', E a a' → E b b' → lt1 a b = lt2 a' b') {x x' : α} (hx : E x x') :
+    ∀ {l l' : List α}, List.Forall₂ E l l' → List.Forall₂ E (insertBy lt1 x l) (insertBy lt2 x' l') := by
+  intro l l' h
+  induction h with
+  | nil => exact List.Forall₂.cons hx List.Forall₂.nil
+  | @cons y y' ys ys' hy hys ih =>
+    simp only [insertBy, hlt y y' x x' hy hx]
+    split
+    · exact List.Forall₂.cons hy ih
+    · exact List.Forall₂.cons hx (List.Forall₂.cons hy hys)
+
+theorem sortBy_forall2 (hlt : ∀ a a' b b', E a a' → E b b' → lt1 a b = lt2 a' b') :
+    ∀ {l l' : List α}, List.Forall₂ E l l' → List.Forall₂ E (sortBy lt1 l) (sortBy lt2 l') := by
+  intro l l' h
+  induction h with
+  | nil => exact List.Forall₂.nil
+  | cons hx _ ih => exact insertBy_forall2 E lt1 lt2 hlt hx ih
+
+end SortCongr
+
+theorem lexLt_congr : ∀ (ks : List Nat) {r r' s s' : List Cell}, KeyEq r r' → KeyEq s s' → lexLt ks r s = lexLt ks r' s'
+  | [], _, _, _, _, _, _ => rfl
+  | k :: ks, r, r', s, s', h1, h2 => by
+    simp only [lexLt, h1.getD k, h2.getD k, lexLt_congr ks h1 h2]
+
+theorem indexS_congr (ks : List Nat) {R S : List (List Cell)} (h : List.Forall₂ KeyEq R S) :
+    List.Forall₂ KeyEq (indexS ks R) (indexS ks S) :=
+  sortBy_forall2 KeyEq (lexLt ks) (lexLt ks) (fun _ _ _ _ h1 h2 => lexLt_congr ks h1 h2) h
+
+
+/-! ## `insert` against `insertS`, with the decidable hypotheses -/
+
+theorem insertOKB_sound {t : Table} (h : insertOKB t = true) : InsertOK t (tableN t) := by
+  simp only [insertOKB, Bool.and_eq_true, decide_eq_true_eq, List.all_eq_true] at h
+  obtain ⟨⟨h1, h2⟩, h3⟩ := h
+  refine ⟨tableOKB_sound h2, h1, fun p hp => by simpa using h3 p hp, fun hd => by simp [tableN, hd]⟩
+
+theorem InsertOK.rows_ok {t : Table} {N : Nat} (h : InsertOK t N) : ∃ R, t.rows = .ok R := by
+  have hm : t.m N = N := by simp [Table.m, h.sel, Sel.idx]
+  by_cases hc : t.columns = []
+  · exact ⟨[], by simp [Table.rows, hc, bind, Except.bind, pure, Except.pure, minLen]⟩
+  · exact ⟨_, h.ok.rows_eq hc⟩
+
+theorem insert_eq_spec' (cfg : Cfg) (t : Table) (d : InsertData) (hwf : insertWF cfg t d = true) :
+    ∃ t' R, t.rows = .ok R ∧ t.insert cfg d = .ok t' ∧ t'.columns = (insertS t.columns R d).1 ∧
+      t'.rows = .ok (insertS t.columns R d).2 ∧ t'.indexes = t.indexes := by
+  simp only [insertWF, Bool.and_eq_true] at hwf
+  obtain ⟨h0, hd⟩ := hwf
+  have hok := insertOKB_sound h0
+  obtain ⟨R, hR⟩ := hok.rows_ok
+  cases d with
+  | rows rs =>
+    simp only [Bool.and_eq_true, Bool.not_eq_true', decide_eq_true_eq, List.all_eq_true, beq_iff_eq] at hd
+    obtain ⟨⟨⟨h1, h2⟩, h3⟩, h4⟩ := hd
+    cases rs with
+    | nil => simp at h1
+    | cons r rs =>
+      have hcne : t.columns ≠ [] := by intro e; simp [e] at h2
+      obtain ⟨t', a, b, c, dd, _⟩ := insert_rows_spec' cfg t (tableN t) hok.ok hok.sel h3 hcne hok.keys r rs h4 R hR
+      exact ⟨t', R, hR, a, by simp [insertS, c], by simpa [insertS] using b, dd⟩
+  | cols cs =>
+    cases cs with
+    | nil => simp at hd
+    | cons q0 cs =>
+      simp only [Bool.and_eq_true, Bool.not_eq_true', List.all_eq_true, beq_iff_eq] at hd
+      obtain ⟨h1, h2⟩ := hd
+      have hcne : t.columns ++ newColsOf t.columns ((q0 :: cs).map (·.1)) ≠ [] := by
+        intro e; rw [e] at h2; simp at h2
+      obtain ⟨t', a, b, c, dd, _⟩ := insert_mapping_rows' cfg t (tableN t) hok q0 cs h1 hcne R hR
+      exact ⟨t', R, hR, a, by simpa [insertS] using b, by simpa [insertS] using c, dd⟩
+  | dicts ds =>
+    simp only [Bool.and_eq_true, Bool.not_eq_true', Bool.or_eq_true] at hd
+    obtain ⟨⟨h1, h2⟩, h3⟩ := hd
+    cases ds with
+    | nil => simp at h1
+    | cons d0 ds =>
+      have hcne : t.columns ++ newColsOf t.columns ((d0 :: ds).flatMap (fun d => d.map (·.1))) ≠ [] := by
+        intro e; rw [e] at h3; simp at h3
+      have hpad : cfg.dictLen = true ∨ dictsToCols (d0 :: ds) ≠ [] := by
+        rcases h2 with h2 | h2
+        · exact Or.inl h2
+        · right; intro e; rw [e] at h2; simp at h2
+      obtain ⟨t', a, b, c, dd, _⟩ := insert_dicts_rows' cfg t (tableN t) hok d0 ds hpad hcne R hR
+      exact ⟨t', R, hR, a, by simpa [insertS] using b, by simpa [insertS] using c, dd⟩
+
+/-- `insertS` respects "equal up to `==`" -/
+theorem insertS_congr (columns : List Nat) {R S : List (List Cell)} (h : List.Forall₂ KeyEq R S) (d : InsertData) :
+    (insertS columns R d).1 = (insertS columns S d).1 ∧
+    List.Forall₂ KeyEq (insertS columns R d).2 (insertS columns S d).2 := by
+  have hrefl : ∀ l : List (List Cell), List.Forall₂ KeyEq l l := fun l => forall2_keyEq_iff.mpr rfl
+  have hpad : ∀ (pad : List Cell), List.Forall₂ KeyEq (R.map (fun r => r ++ pad)) (S.map (fun r => r ++ pad)) := by
+    intro pad
+    induction h with
+    | nil => exact List.Forall₂.nil
+    | cons h1 _ ih =>
+      refine List.Forall₂.cons ?_ ih
+      simp only [KeyEq, List.map_append] at h1 ⊢
+      rw [h1]
+  have happ : ∀ {A B C D : List (List Cell)}, List.Forall₂ KeyEq A B → List.Forall₂ KeyEq C D → List.Forall₂ KeyEq (A ++ C) (B ++ D) := by
+    intro A B C D h1 h2
+    induction h1 with
+    | nil => exact h2
+    | cons x _ ih => exact List.Forall₂.cons x ih
+  cases d with
+  | rows rs => exact ⟨rfl, happ h (hrefl _)⟩
+  | dicts ds =>
+    simp only [insertS]
+    split
+    · exact ⟨rfl, h⟩
+    · exact ⟨rfl, happ (hpad _) (hrefl _)⟩
+  | cols cs =>
+    cases cs with
+    | nil => exact ⟨rfl, h⟩
+    | cons q cs => exact ⟨rfl, happ (hpad _) (hrefl _)⟩
+
+
+/-! ## the refinement theorem over linear histories -/
+
+theorem abs_rows {t : Table} {R : List (List Cell)} (h : t.rows = .ok R) : t.abs.rows = R := by
+  simp [Table.abs, h]
+
+theorem indexWF_nodup {cfg : Cfg} {t : Table} {indx : List Nat} (hwf : indexWF cfg t indx = true) :
+    (effIndex cfg t indx).Nodup := by
+  unfold indexWF at hwf
+  split at hwf
+  · simp at hwf
+  · simp only [Bool.and_eq_true, decide_eq_true_eq] at hwf
+    exact hwf.1.1.2
+
+theorem effIndex_eq_spec {cfg : Cfg} {t : Table} {indx : List Nat} (h : (effIndex cfg t indx).Nodup) :
+    effIndex cfg t indx = dedupNat (indx.filter (fun c => t.columns.contains c)) := by
+  unfold effIndex at h ⊢
+  by_cases hd : cfg.dictLen = true <;> by_cases hx : cfg.dedupIdx = true
+  all_goals simp only [hx] at h ⊢
+  all_goals first | rfl | exact (dedupNat_of_nodup _ (by simpa using h)).symm
+
+/-- one operation: the code's table and the specification's stay equal up to `==` -/
+theorem stepL_refines (cfg : Cfg) (t : Table) (a : AbsT) (op : LOp) (hwf : opWF cfg t op = true)
+    (hrel : AbsT.eqv t.abs a) :
+    ∃ t' a', stepL cfg t op = .ok t' ∧ stepLS a op = .ok a' ∧ AbsT.eqv t'.abs a' := by
+  obtain ⟨hc, hi, hr⟩ := hrel
+  simp only [Table.abs] at hc hi
+  cases op with
+  | copy => exact ⟨t, a, rfl, rfl, hc, hi, hr⟩
+  | insert d =>
+    obtain ⟨t', R, hR, e, c1, c2, c3⟩ := insert_eq_spec' cfg t d hwf
+    rw [abs_rows hR] at hr
+    have hcg := insertS_congr t.columns (forall2_keyEq_iff.mpr hr) d
+    refine ⟨t', _, e, rfl, ?_, ?_, ?_⟩
+    · simp only [Table.abs, c1, ← hc]; exact hcg.1
+    · simp only [Table.abs, c3]; exact hi
+    · simp only [abs_rows c2, ← hc]; exact forall2_keyEq_iff.mp hcg.2
+  | index cols =>
+    simp only [opWF] at hwf
+    obtain ⟨t', perm, R, R', e, hR, hR', c1, c2, _, _, _, _, _, _, c13⟩ := index_spec' cfg t cols hwf
+    rw [abs_rows hR] at hr
+    have hix := effIndex_eq_spec (indexWF_nodup hwf)
+    refine ⟨t', _, e, rfl, ?_, ?_, ?_⟩
+    · simp only [Table.abs, c1]; exact hc
+    · simp only [Table.abs, c2, ← hc]; exact hix
+    · simp only [abs_rows hR', ← hc, ← hix, c13]
+      exact forall2_keyEq_iff.mp (indexS_congr _ (forall2_keyEq_iff.mpr hr))
+  | whereK pos kws =>
+    simp only [opWF, Bool.and_eq_true] at hwf
+    obtain ⟨h1, h2⟩ := hwf
+    cases hR : t.rows with
+    | error e => simp [hR] at h2
+    | ok R =>
+      simp only [hR] at h2
+      obtain ⟨rs, hrs⟩ := (isOk_iff _).mp h2
+      obtain ⟨t', e, c1, c2, c3⟩ := where_eq_spec' cfg t pos kws R rs h1 hR hrs
+      rw [abs_rows hR] at hr
+      simp only [whereS] at hrs
+      rcases filterRows_congr (fun r => satRow t.columns r (kws.map (condOf pos))) (fun r => satRow t.columns r (kws.map (condOf pos)))
+        (forall2_keyEq_iff.mpr hr) (fun r s hrs' => satRow_congr t.columns hrs' _) with ⟨e', e1, _⟩ | ⟨rs1, ss, e1, e2, hf⟩
+      · rw [hrs] at e1; exact absurd e1 (by simp)
+      · rw [hrs] at e1
+        have : rs1 = rs := (Except.ok.inj e1).symm
+        subst this
+        refine ⟨t', { a with rows := ss }, e, ?_, ?_, ?_, ?_⟩
+        · simp only [stepLS, whereS, ← hc, e2]
+        · simp only [Table.abs, c2]; exact hc
+        · simp only [Table.abs, c3]; exact hi
+        · simp only [abs_rows c1]; exact forall2_keyEq_iff.mp hf
+  | whereP p =>
+    simp only [opWF, Bool.and_eq_true, Bool.not_eq_true'] at hwf
+    obtain ⟨h1, h2⟩ := hwf
+    have hcne : t.columns ≠ [] := by intro e; simp [e] at h2
+    cases hd : t.data with
+    | nil => simp [hd] at h1
+    | cons q rest =>
+      obtain ⟨c0, b⟩ := q
+      simp only [hd] at h1
+      have hok := tableOKB_sound h1
+      have hR := hok.rows_eq hcne
+      obtain ⟨t', e, c1, c2, c3, _⟩ := where_pred_eq_spec' cfg t b.length hok hcne p Option.none [] _ hR
+      rw [abs_rows hR] at hr
+      refine ⟨t', { a with rows := a.rows.filter p.eval }, e, rfl, ?_, ?_, ?_⟩
+      · simp only [Table.abs, c2]; exact hc
+      · simp only [Table.abs, c3]; exact hi
+      · simp only [abs_rows c1]
+        exact forall2_keyEq_iff.mp (filter_congr _ _ (forall2_keyEq_iff.mpr hr) (fun r s h => rowPred_congr h p))
+
+/-- **refinement over arbitrary linear histories** -/
+theorem ops_refine' (cfg : Cfg) : ∀ (ops : List LOp) (t : Table) (a : AbsT), WFL cfg t ops = true → AbsT.eqv t.abs a →
+    ∃ t' a', runL cfg t ops = .ok t' ∧ runLS a ops = .ok a' ∧ AbsT.eqv t'.abs a'
+  | [], t, a, _, hrel => ⟨t, a, rfl, rfl, hrel⟩
+  | op :: rest, t, a, hwf, hrel => by
+    simp only [WFL, Bool.and_eq_true] at hwf
+    obtain ⟨h1, h2⟩ := hwf
+    obtain ⟨t1, a1, e1, e2, hrel1⟩ := stepL_refines cfg t a op h1 hrel
+    simp only [e1] at h2
+    obtain ⟨t', a', e3, e4, hrel'⟩ := ops_refine' cfg rest t1 a1 h2 hrel1
+    exact ⟨t', a', by simp only [runL, e1, e3], by simp only [runLS, e2, e4], hrel'⟩
+
+
+/-! ## `match` on a homogeneous column -/
+
+theorem where_match_eq_spec' (cfg : Cfg) (col : List Cell) (arg : Cell) (harg : isNumber arg = true ∨ isStr arg = true)
+    (hh : homogB col = true) (hne : cfg.matchEmpty = true ∨ col ≠ []) :
+    compareScan cfg col .mtch (.scalar arg) = scanFilter 0 col (fun c => .ok (matchCell arg c)) := by
+  simp only [compareScan, matchScan]
+  cases col with
+  | nil =>
+    rcases hne with h | h
+    · simp [h, scanFilter]
+    · exact absurd rfl h
+  | cons c0 rest =>
+    simp only [homogB, Bool.or_eq_true, List.all_eq_true] at hh
+    rcases hh with hs | hn
+    · -- a column of strings
+      have hc0 : isStr c0 = true := hs c0 (by simp)
+      have hc0n : isNumber c0 = false := by cases c0 <;> simp_all [isStr, isNumber]
+      rcases harg with ha | ha
+      · simp only [ha, hc0, hc0n, Bool.and_false, Bool.false_eq_true, if_false, Bool.and_self, if_true]
+        apply scanFilter_congr
+        intro c hc
+        have := hs c hc
+        cases c <;> simp_all [isStr, matchCell]
+      · have han : isNumber arg = false := by cases arg <;> simp_all [isStr, isNumber]
+        simp only [ha, han, hc0, Bool.false_and, Bool.false_eq_true, if_false, Bool.and_self, if_true]
+        apply scanFilter_congr
+        intro c hc
+        have := hs c hc
+        cases c <;> simp_all [isStr, matchCell]
+    · -- a column of numbers
+      have hc0 : isNumber c0 = true := hn c0 (by simp)
+      have hc0s : isStr c0 = false := by cases c0 <;> simp_all [isStr, isNumber]
+      rcases harg with ha | ha
+      · simp only [ha, hc0, Bool.and_self, if_true]
+        apply scanFilter_congr
+        intro c hc
+        have := hn c hc
+        cases c <;> simp_all [isNumber, matchCell]
+      · have han : isNumber arg = false := by cases arg <;> simp_all [isStr, isNumber]
+        simp only [ha, han, hc0s, Bool.false_and, Bool.and_false, Bool.false_eq_true, if_false]
+        apply scanFilter_congr
+        intro c hc
+        have := hn c hc
+        cases c <;> simp_all [isNumber, matchCell, cellStr]
+
+
+/-! ### the three readings of `index_spec'` used in `Props` -/
+
+theorem index_spec_partial_aux (cfg : Cfg) (t : Table) (indx : List Nat) (hwf : indexWF cfg t indx = true) :
+    ∃ (t' : Table) (perm : List Nat) (R R' : List (List Cell)), t.index cfg indx = .ok t' ∧ t.rows = .ok R ∧ t'.rows = .ok R' ∧
+      t'.columns = t.columns ∧ t'.indexes = effIndex cfg t indx ∧
+      R'.length = R.length ∧ perm.Perm (List.range R.length) ∧
+      (∀ i, i < R.length → (R'.getD i []).map Cell.key = (R.getD (perm.getD i 0) []).map Cell.key) ∧
+      (∀ i, i < R.length → ∀ k, k < t.columns.length → t.columns.getD k 0 ∉ effIndex cfg t indx →
+        (R'.getD i []).getD k .missing = (R.getD (perm.getD i 0) []).getD k .missing) ∧
+      (∀ i j, i < j → j < R.length →
+        lexLt (idxPositions t.columns (effIndex cfg t indx)) (R'.getD j []) (R'.getD i []) = false) :=
+  let ⟨t', perm, R, R', h⟩ := index_spec' cfg t indx hwf
+  ⟨t', perm, R, R', h.1, h.2.1, h.2.2.1, h.2.2.2.1, h.2.2.2.2.1, h.2.2.2.2.2.1, h.2.2.2.2.2.2.1, h.2.2.2.2.2.2.2.1,
+    h.2.2.2.2.2.2.2.2.1, h.2.2.2.2.2.2.2.2.2.1⟩
+
+theorem index_stable_aux (cfg : Cfg) (t : Table) (indx : List Nat) (hwf : indexWF cfg t indx = true) :
+    ∃ (t' : Table) (perm : List Nat) (R R' : List (List Cell)), t.index cfg indx = .ok t' ∧ t.rows = .ok R ∧ t'.rows = .ok R' ∧
+      perm.Perm (List.range R.length) ∧
+      (∀ i, i < R.length → (R'.getD i []).map Cell.key = (R.getD (perm.getD i 0) []).map Cell.key) ∧
+      (∀ i j, i < j → j < R.length →
+        lexLt (idxPositions t.columns (effIndex cfg t indx)) (R'.getD i []) (R'.getD j []) = false → perm.getD i 0 < perm.getD j 0) :=
+  let ⟨t', perm, R, R', h⟩ := index_spec' cfg t indx hwf
+  ⟨t', perm, R, R', h.1, h.2.1, h.2.2.1, h.2.2.2.2.2.2.1, h.2.2.2.2.2.2.2.1, h.2.2.2.2.2.2.2.2.2.2.1⟩
+
+theorem index_eq_spec_aux (cfg : Cfg) (t : Table) (indx : List Nat) (hwf : indexWF cfg t indx = true) :
+    ∃ (t' : Table) (R R' : List (List Cell)), t.index cfg indx = .ok t' ∧ t.rows = .ok R ∧ t'.rows = .ok R' ∧
+      R'.map (List.map Cell.key) = (indexS (idxPositions t.columns (effIndex cfg t indx)) R).map (List.map Cell.key) :=
+  let ⟨t', _, R, R', h⟩ := index_spec' cfg t indx hwf
+  ⟨t', R, R', h.1, h.2.1, h.2.2.1, h.2.2.2.2.2.2.2.2.2.2.2⟩
 
 end Coba.C17
